@@ -9,6 +9,8 @@ CONSTANTS Nodes <- MCNodes
           UserOps <- MCUserOps
           MaxOps = 1
           Policy <- MCPolicy
+          HandlerAbort <- MCHandlerAbort
+          KnownCrash <- MCKnown
 VIEW View
 INVARIANT C05_DefinedEventsOnly
 INVARIANT C05_DoneImpliesIdle
